@@ -646,7 +646,9 @@ def r_cost_func(ctx):
         n += 1
         params = [e for e in run.env if e != "self"]
         want = [("mcall", SELF, "_function", (S(p),), ()) for p in params]
-        if run.retval is not None and any(canon(norm(run.retval)) == canon(norm(w)) for w in want):
+        # the same value returned from several places (an early return for the common case) is that value
+        alts = value_alternatives(run.retval) if isinstance(run.retval, tuple) else []
+        if run.retval is not None and alts and any(all(canon(norm(v_)) == canon(norm(w)) for _g, v_ in alts) for w in want):
             ctx.ok("R-COST-FUNC", f"Function.__call__ [{describe_config(run)}]", sample={"returns": show(norm(run.retval))[:120]})
         else:
             ctx.violation("R-COST-FUNC", "Function.__call__", "returns the installed function applied to the argument",
